@@ -20,10 +20,12 @@ import (
 
 	"google.golang.org/grpc"
 
+	"github.com/KevoDB/kevo/pkg/common/iterator"
 	"github.com/KevoDB/kevo/pkg/engine"
 	"github.com/KevoDB/kevo/pkg/engine/interfaces"
 	"github.com/KevoDB/kevo/pkg/grpc/service"
 	"github.com/KevoDB/kevo/pkg/transaction"
+	"github.com/KevoDB/kevo/pkg/wal"
 	pb "github.com/KevoDB/kevo/proto/kevo"
 )
 
@@ -79,6 +81,10 @@ type beginRec struct {
 	acquired atomic.Bool
 	tx       interfaces.Transaction // valid once acquired is true
 	err      error
+	// "the client gives up exactly when the lock is granted": cancel is the
+	// CancelFunc of the context handed to Registry.Begin / the service handler
+	giveUp string // "" | before_grant | at_grant | soon_after
+	cancel context.CancelFunc
 }
 
 func (r *beginRec) mode() string {
@@ -94,10 +100,34 @@ func (r *beginRec) mode() string {
 // timed-out Registry.Begin creates after its caller has left).
 type wrapEngine struct {
 	*engine.EngineFacade
-	mgr  *transaction.Manager // short_ttl mode: a manager with a short lifetime limit over the same engine
+	mgr  *transaction.Manager // own manager (wrapped backend and/or short lifetime limit) over the engine's storage manager
 	mu   sync.Mutex
 	next *beginRec
 	recs []*beginRec
+}
+
+// faultBackend is the engine's real storage manager behind a pass-through
+// wrapper whose ApplyBatch reports an injected error (and applies nothing)
+// when armed: a storage fault at commit.
+type faultBackend struct {
+	real     transaction.StorageBackend
+	armed    atomic.Bool
+	injected atomic.Int64
+}
+
+var errInjected = errors.New("injected storage fault (C17)")
+
+func (b *faultBackend) Get(key []byte) ([]byte, error) { return b.real.Get(key) }
+func (b *faultBackend) ApplyBatch(entries []*wal.Entry) error {
+	if b.armed.CompareAndSwap(true, false) {
+		b.injected.Add(1)
+		return errInjected
+	}
+	return b.real.ApplyBatch(entries)
+}
+func (b *faultBackend) GetIterator() (iterator.Iterator, error) { return b.real.GetIterator() }
+func (b *faultBackend) GetRangeIterator(start, end []byte) (iterator.Iterator, error) {
+	return b.real.GetRangeIterator(start, end)
 }
 
 func (w *wrapEngine) BeginTransaction(readOnly bool) (interfaces.Transaction, error) {
@@ -110,6 +140,9 @@ func (w *wrapEngine) BeginTransaction(readOnly bool) (interfaces.Transaction, er
 	}
 	w.mu.Unlock()
 	close(rec.entered)
+	if rec.giveUp == "before_grant" && rec.cancel != nil {
+		rec.cancel()
+	}
 	var tx interfaces.Transaction
 	var err error
 	if w.mgr != nil {
@@ -123,6 +156,17 @@ func (w *wrapEngine) BeginTransaction(readOnly bool) (interfaces.Transaction, er
 	}
 	rec.tx, rec.err = tx, err
 	rec.acquired.Store(true)
+	// the lock has just been granted to the goroutine inside Registry.Begin
+	switch {
+	case rec.cancel == nil:
+	case rec.giveUp == "at_grant":
+		rec.cancel()
+	case rec.giveUp == "soon_after":
+		go func() {
+			time.Sleep(50 * time.Microsecond)
+			rec.cancel()
+		}()
+	}
 	return tx, err
 }
 
@@ -149,6 +193,7 @@ type txn struct {
 	state        string
 	registered   bool
 	issued       time.Time
+	giveUp       string
 	commitsSince int  // value of world.commits right after this transaction committed
 	queued       bool // a settle() has left this begin waiting at least once
 	epoch        int  // value of world.epoch when the begin was issued
@@ -175,6 +220,7 @@ type world struct {
 	dir       string
 	eng       *engine.EngineFacade
 	weng      *wrapEngine
+	fb        *faultBackend // nil: transactions come from the engine's own manager
 	reg       transaction.Registry
 	regImpl   *transaction.RegistryImpl
 	svc       *service.KevoServiceServer
@@ -193,6 +239,7 @@ type world struct {
 	stepNo    int
 	wedged    bool
 	lastWait  time.Duration
+	faultNext bool // the next commit of an open read-write transaction with buffered writes hits a storage fault
 	notes     []string
 	abort     bool // go straight to the final probe
 }
@@ -238,11 +285,22 @@ func newWorld(c *Case, rep int, scratch string) *world {
 	w.weng = &wrapEngine{EngineFacade: e}
 	limit := time.Duration(c.LimitMs) * time.Millisecond
 	idle := time.Hour
+	if c.Backend == "wrapped" || c.Mode == "short_ttl" {
+		w.fb = &faultBackend{real: e.VerifStorage()}
+		w.features["backend_wrapped"] = true
+	}
 	switch c.Mode {
 	case "short_idle":
 		idle = limit
+		if w.fb != nil {
+			w.weng.mgr = transaction.NewManager(w.fb, nil)
+		}
 	case "short_ttl":
-		w.weng.mgr = transaction.NewManagerWithTTL(e, nil, limit, limit, time.Hour)
+		w.weng.mgr = transaction.NewManagerWithTTL(w.fb, nil, limit, limit, time.Hour)
+	default:
+		if w.fb != nil {
+			w.weng.mgr = transaction.NewManager(w.fb, nil)
+		}
 	}
 	w.reg = transaction.NewRegistryWithTTL(time.Hour, idle, 75, 90)
 	w.regImpl = w.reg.(*transaction.RegistryImpl)
@@ -546,6 +604,19 @@ func anyWriter(ts []*txn) bool {
 // promote: the begin call of t has returned; t is open now.
 func (w *world) promote(t *txn) {
 	c := t.call
+	if c.err != nil && t.giveUp != "" {
+		// The client gave up around the moment the lock was granted and the call reports
+		// that (legal, as is success). Whatever the goroutine inside Begin created or
+		// still creates is the implementation's to roll back: from here on it is a late begin.
+		t.rec.ghost, t.rec.how, t.rec.owner = true, "cancel_at_grant", nil
+		t.state = stCleaned
+		if w.cur[t.client] == t {
+			w.cur[t.client] = nil
+		}
+		w.features["cancel_at_grant_reported_error"] = true
+		w.logf("  client %d: begin gave up (%s): %v", t.client, t.giveUp, c.err)
+		return
+	}
 	if c.err != nil {
 		if strings.Contains(c.err.Error(), "timed out") && time.Since(t.issued) > 9*time.Second {
 			// Registry.Begin's own 10 s limit: this begin turned into a late begin.
@@ -578,6 +649,9 @@ func (w *world) promote(t *txn) {
 	}
 	t.state = stOpen
 	t.rec.how = "begin"
+	if t.giveUp != "" {
+		w.features["cancel_at_grant_succeeded"] = true
+	}
 	w.acquired(t.ro)
 	w.logf("  client %d: begin returned (%s %s %s)", t.client, t.path, t.mode(), t.id)
 }
@@ -592,6 +666,11 @@ func (w *world) promote(t *txn) {
 //     between them: all of them return.
 func (w *world) settle() {
 	for {
+		for _, t := range w.all {
+			if t.state == stInflight && t.giveUp != "" && isDone(t.call) && t.call.err != nil {
+				w.promote(t)
+			}
+		}
 		act, inf := w.holders()
 		if len(inf) == 0 {
 			return
@@ -643,6 +722,9 @@ func (w *world) ctxFor(t *txn, deadlineMs int) (context.Context, context.CancelF
 	if deadlineMs > 0 {
 		return context.WithTimeout(ctx, time.Duration(deadlineMs)*time.Millisecond)
 	}
+	if t.giveUp != "" {
+		return context.WithCancel(ctx)
+	}
 	return ctx, func() {}
 }
 
@@ -662,17 +744,23 @@ func (w *world) issue(t *txn, deadlineMs int) {
 	t.issued = time.Now()
 	t.epoch = w.epoch
 	t.state = stInflight
+	var ctx context.Context
+	cancel := context.CancelFunc(func() {})
+	if t.path != "direct" {
+		ctx, cancel = w.ctxFor(t, deadlineMs)
+		if t.giveUp != "" {
+			rec.giveUp, rec.cancel = t.giveUp, cancel
+		}
+	}
 	go func() {
 		defer close(call.done)
 		switch t.path {
 		case "direct":
 			_, call.err = w.weng.BeginTransaction(t.ro)
 		case "reg":
-			ctx, cancel := w.ctxFor(t, deadlineMs)
 			defer cancel()
 			call.id, call.err = w.reg.Begin(ctx, w.weng, t.ro)
 		case "svc":
-			ctx, cancel := w.ctxFor(t, deadlineMs)
 			defer cancel()
 			resp, err := w.svc.BeginTransaction(ctx, &pb.BeginTransactionRequest{ReadOnly: t.ro})
 			call.err = err
@@ -742,7 +830,9 @@ func (w *world) doWriteTx(s Step) {
 	}
 	w.logf("put client %d (%s rw open) key=%s", t.client, t.path, keyOf(s.K))
 	w.useOpen(t, "put", keyOf(s.K), s.V)
+	w.faultNext = s.Fault
 	w.finish(t, "commit", s.Keep)
+	w.faultNext = false
 }
 
 func (w *world) doBegin(s Step) *txn {
@@ -790,6 +880,10 @@ func (w *world) doBegin(s Step) *txn {
 	if s.DeadlineMs > 0 && t.path != "direct" && mustBlock && w.late < maxLateBegin {
 		deadline = s.DeadlineMs
 	}
+	if deadline == 0 && s.GiveUp != "" && t.path != "direct" {
+		t.giveUp = s.GiveUp
+		w.features["cancel_at_grant"] = true
+	}
 	if old := w.cur[ci]; old != nil && old.closed() && old.rec != nil && (old.rec.tx != nil || old.id != "") {
 		w.retired = append(w.retired, old)
 		if len(w.retired) > maxRetired {
@@ -798,7 +892,7 @@ func (w *world) doBegin(s Step) *txn {
 	}
 	w.all = append(w.all, t)
 	w.cur[ci] = t
-	w.logf("begin client %d %s %s conn=%q deadline=%dms", ci, t.path, t.mode(), t.conn, deadline)
+	w.logf("begin client %d %s %s conn=%q deadline=%dms give_up=%q", ci, t.path, t.mode(), t.conn, deadline, t.giveUp)
 	if sweep && w.short() {
 		w.epoch++
 	}
@@ -1012,7 +1106,9 @@ func (w *world) doFinish(s Step) {
 		w.counters["skipped_"+s.Op]++
 		return
 	}
+	w.faultNext = s.Fault
 	w.finish(t, s.Op, s.Keep)
+	w.faultNext = false
 }
 
 func (w *world) finish(t *txn, op string, keep bool) {
@@ -1033,6 +1129,13 @@ func (w *world) finish(t *txn, op string, keep bool) {
 		return e
 	}
 	if t.state == stOpen {
+		faulty := false
+		if w.faultNext && w.fb != nil && op == "commit" && !t.ro && len(t.overlay) > 0 {
+			w.fb.armed.Store(true)
+			faulty = true
+		}
+		w.faultNext = false
+		defer w.fbDisarm()
 		if t.path == "svc" {
 			err = svcCall()
 			if err != nil && strings.Contains(err.Error(), "transaction not found") {
@@ -1048,6 +1151,25 @@ func (w *world) finish(t *txn, op string, keep bool) {
 		}
 		if isClosedErr(err) {
 			w.fail("open_tx_reports_closed:"+op+":"+t.path+":"+t.rec.how, "%s of the open transaction of client %d returned %v", op, t.client, err)
+		}
+		if faulty && !w.fb.armed.Load() && err != nil {
+			// The storage refused the batch and Commit reports it: the commit took no
+			// effect, the transaction is finished all the same (closed for every later use,
+			// lock released, service handle gone).
+			w.features["commit_fault_injected"] = true
+			w.logf("  commit failed on the injected storage fault: %v", err)
+			t.state = stDone
+			t.rec.how = "commit_failed"
+			w.released("commit_failed", t)
+			w.checkState("commit_failed:open")
+			if t.path == "svc" {
+				if _, ok := w.reg.Get(t.id); ok {
+					w.counters["failed_commit_handle_kept"]++
+					t.registered = true // legal too: then the cleanup paths still reach it
+				}
+			}
+			w.settle()
+			return
 		}
 		if err != nil {
 			w.diverge("%s of an open transaction failed: %v", op, err)
@@ -1087,6 +1209,12 @@ func (w *world) finish(t *txn, op string, keep bool) {
 		}
 	}
 	w.checkState(op + ":repeat_after_" + how)
+}
+
+func (w *world) fbDisarm() {
+	if w.fb != nil {
+		w.fb.armed.Store(false)
+	}
 }
 
 func (w *world) doAbandon(s Step) {
